@@ -276,3 +276,4 @@ def run_unit(unit) -> UnitResult:
 
 def finalize(cr):
     cr.require("searches")
+    cr.exhaustive = False  # the search units explore the random answers up to a deviation bound
